@@ -20,6 +20,8 @@ mod stall;
 mod task;
 mod tracker;
 mod transaction;
+#[cfg(feature = "verif")]
+pub mod verif;
 mod vfs;
 mod vlog;
 mod wal;
